@@ -184,8 +184,17 @@ func partA() {
 		"new message in a mailbox whose highest UID was expunged before": nv.uidGap,
 	}
 	run.Set("A_non_vacuity", nvm)
+	var violating int64
+	for _, st := range all {
+		violating += st.Violating
+	}
 	for k, v := range nvm {
 		if v == 0 {
+			if violating*4 > run.Trans {
+				// the search was cut short by violations at (nearly) every state: that is a verdict, not an engine problem
+				run.Set("A_non_vacuity_not_reached_because_violations_cut_the_search", true)
+				continue
+			}
 			run.EngineError("non-vacuity counter %q is 0: the exploration never exercised that clause", k)
 		}
 	}
@@ -207,7 +216,7 @@ func finishEvidence() {
 	run.Set("B_commands_that_killed_the_connection", bst.crashes)
 	for k, v := range map[string]int64{"B search commands with a non-trivial result": bst.searchNonEmpty, "B fetches compared with the section table": bst.fetchCompared,
 		"B fetches of parts that do not exist": bst.fetchMissing, "B list commands": bst.listCmds} {
-		if v == 0 {
+		if v == 0 && !bSkipped {
 			run.EngineError("non-vacuity counter %q is 0", k)
 		}
 	}
